@@ -9,7 +9,14 @@ Bind: (1) dqstate_conformance: the real inline dq_state functions vs the DQState
 (2) harness/drv_chain.c: the same shapes (and larger ones, workloop bottom included) on the real
 library under perturbation, the property's statement evaluated on the recorded total order;
 (3) the recorded dq_state accesses of EVERY queue of the hierarchy, split per queue, validated
-against spec/ChainWordTrace.tla (each access must be a transition its DQState operator allows)."""
+against spec/ChainWordTrace.tla (each access must be a transition its DQState operator allows).
+Workloop bottom: spec/Workloop.tla (Chain.tla with the bottom lane replaced by the workloop of src/queue.c: per-bucket
+MPSC lists, _dispatch_workloop_push / _push_waiter / _wakeup / _invoke2 / _try_lower_max_qos / _barrier_complete /
+_drain_barrier_waiter / _activate, dispatch_async and dispatch_async_and_wait directly on the workloop) model-checked on the
+shapes of spec/MCWorkloop.tla with its own spec mutants; on the real library the workloop object itself is recorded
+(dq_state with numeric max_qos, every exchange of dwl_tails[] / dwl_heads[]) and validated against
+spec/WorkloopWordTrace.tla (operators of spec/WorkloopState.tla, first-pusher obligation, pops under the lock, no work left
+behind an unlock); spec/ChainLockTrace.tla treats the workloop as a serial level."""
 import os, re, json
 from vlib import *
 from props.lane_common import dqstate_conformance, FUNC_PROPS
@@ -72,6 +79,63 @@ CHECK_DEADLOCK FALSE
     return path
 
 
+# ---- Workloop.tla (spec/MCWorkloop.tla): name -> shape suffixes (Queues/Target, Width, Qos), program suffixes, buckets ----
+WL_MODELS = {
+    "W1":  dict(q="W1", w="W1", qos="W1", items="W1", on="W1", prog="W1", buckets="{4}"),          # serial leaf: async + sync
+    "W1x": dict(q="W1", w="W1", qos="W1", items="W1x", on="W1x", prog="W1x", buckets="{4}"),       # + async directly on the workloop
+    "W1i": dict(q="W1", w="W1", qos="W1", items="W1", on="W1", prog="W1i", buckets="{4}", inactive=True),   # created inactive, two activates
+    "W2":  dict(q="W2", w="W2", qos="W2", items="W2", on="W2", prog="W2", buckets="{3, 4}"),       # fan-in over two buckets, asyncs
+    "W2s": dict(q="W2", w="W2", qos="W2", items="W2s", on="W2s", prog="W2s", buckets="{3, 4}"),    # async (utility leaf) vs sync (default leaf)
+    "W2t": dict(q="W2", w="W2", qos="W2", items="W2s", on="W2t", prog="W2s", buckets="{3, 4}"),    # sync through the utility leaf
+    "W2x": dict(q="W2", w="W2", qos="W2", items="W2x", on="W2x", prog="W2x", buckets="{3, 4}"),
+    "W3":  dict(q="W1", w="W3", qos="W1", items="W3", on="W3", prog="W3", buckets="{4}"),          # concurrent leaf
+    "W3b": dict(q="W1", w="W3", qos="W1", items="W3b", on="W3b", prog="W3b", buckets="{4}"),
+    "W4":  dict(q="W1", w="W1", qos="W1", items="W4", on="W4", prog="W4", buckets="{4}"),          # async + async_and_wait on the workloop
+    "W4s": dict(q="W1", w="W1", qos="W1", items="W4s", on="W4s", prog="W4s", buckets="{4}"),       # sync through the leaf vs async_and_wait
+    "W4x": dict(q="W1", w="W1", qos="W1", items="W4x", on="W4x", prog="W4x", buckets="{4}"),
+    "W5y": dict(q="W5", w="W5", qos="W5", items="W5y", on="W5y", prog="W5y", buckets="{4, 5}"),    # higher bucket fills while the default one is drained
+    "W5x": dict(q="W5", w="W5", qos="W5", items="W5x", on="W5x", prog="W5x", buckets="{4, 5}"),    # waiter in the lower bucket
+    "W6":  dict(q="W6", w="W6", qos="W6", items="W1", on="W1", prog="W1", buckets="{4}"),          # leaf -> serial -> workloop
+    "W7":  dict(q="W6", w="W7", qos="W6", items="W3", on="W3", prog="W3", buckets="{4}"),          # concurrent leaf -> serial -> workloop
+    "W8":  dict(q="W6", w="W8", qos="W6", items="W1", on="W1", prog="W1", buckets="{4}"),          # serial leaf -> concurrent -> workloop
+}
+WL_INVS = ("HierarchyExclusion WorkloopExclusion Order BarrierExcl AtMostOnce NoStrand SyncAfterEnd WidthOK NoEarlyStart NoCrash RefOK "
+           "LockChain DrainFromTarget PopUnderLock")
+WL_INVS_PROP = "HierarchyExclusion WorkloopExclusion Order AtMostOnce NoStrand SyncAfterEnd"
+
+
+def wl_cfg(name, mut="none", live=True, workers=2, invs=None):
+    m = WL_MODELS[name]
+    txt = """SPECIFICATION FairSpec
+CONSTANTS
+  Queues <- Queues%s
+  WL = "WL"
+  Target <- Target%s
+  Width <- Width%s
+  QosOf <- Qos%s
+  Buckets = %s
+  DEFQ = 4
+  WlInactive = %s
+  Clients = {"c1", "c2"}
+  Workers = {%s}
+  Items <- Items%s
+  Kind <- Kind%s
+  On <- On%s
+  Prog <- Prog%s
+  SCMAX = 3
+  SCHALF = 2
+  Mut = "%s"
+INVARIANTS %s
+%s
+CHECK_DEADLOCK FALSE
+""" % (m["q"], m["q"], m["w"], m["qos"], m["buckets"], "TRUE" if m.get("inactive") else "FALSE",
+       ", ".join('"w%d"' % (i + 1) for i in range(workers)), m["items"], m["items"], m["on"], m["prog"], mut, invs or WL_INVS,
+       "PROPERTY Live" if live else "")
+    path = os.path.join(rundir(PROP), "Workloop_%s_%s.cfg" % (name, mut))
+    open(path, "w").write(txt)
+    return path
+
+
 def par(jobs, n):
     """Run thunks concurrently (TLC / driver subprocesses), results in order; the first exception is re-raised."""
     from concurrent.futures import ThreadPoolExecutor
@@ -93,23 +157,35 @@ def tlc_retry(name, *a, **kw):
 
 
 # the largest configurations are checked for the invariants only (liveness is checked on all the others)
-NO_LIVENESS = {"C3", "C7"}
+NO_LIVENESS = {"C3", "C7", "W3b", "W2x"}
+
+
+def is_wl(name):
+    return name in WL_MODELS
+
+
+def model_job(n, mut, live, invs, timeout, w, heap):
+    if is_wl(n):
+        return lambda: tlc_retry("%s %s" % (n, mut), "MCWorkloop.tla", wl_cfg(n, mut=mut, live=live, invs=invs), timeout=timeout, workers=w,
+                                 heap=heap, metaname="C03_wl_%s_%s" % (n, mut))
+    return lambda: tlc_retry("%s %s" % (n, mut), "MCChain.tla", chain_cfg(n, mut=mut, live=live, invs=invs), timeout=timeout, workers=w,
+                             heap=heap, metaname="C03_chain_%s_%s" % (n, mut))
 
 
 def run_models_and_mutants(v, names, muts, timeout=1500, pool=4):
-    """muts: (config, mutant, must_be_refuted).  A control mutant (must_be_refuted=False) has to PASS:
+    """names: configurations of MCChain.tla and of MCWorkloop.tla (the latter are the keys of WL_MODELS).
+    muts: (config, mutant, must_be_refuted).  A control mutant (must_be_refuted=False) has to PASS:
     it shows that the neighbouring mutant is refuted because of the mutated step and nothing else."""
     w = max(2, NCPU // pool)
-    jobs = [(lambda n=n: tlc_retry(n, "MCChain.tla", chain_cfg(n, live=n not in NO_LIVENESS), timeout=timeout, workers=w, heap="3g",
-                                   metaname="C03_chain_%s" % n)) for n in names]
-    jobs += [(lambda c=c, m=m: tlc_retry("mutant %s" % m, "MCChain.tla", chain_cfg(c, mut=m, live=False, invs=INVS_PROP),
-                                         timeout=900, workers=w, heap="2g", metaname="C03_mut_%s" % m)) for c, m, _ in muts]
+    jobs = [model_job(n, "none", n not in NO_LIVENESS, None, timeout, w, "3g") for n in names]
+    jobs += [model_job(c, m, False, WL_INVS_PROP if is_wl(c) else INVS_PROP, 900, w, "2g") for c, m, _ in muts]
     res = par(jobs, pool)
     for n, r in zip(names, res):
-        v.add_model("Chain/" + n, r)
+        fam = "Workloop" if is_wl(n) else "Chain"
+        v.add_model(fam + "/" + n, r)
         if r.violated:
-            p = save_replay(PROP, "Chain_%s.tlc.out" % n, r.out)
-            v.violation("Chain.tla config %s violates %s" % (n, r.violated), p)
+            p = save_replay(PROP, "%s_%s.tlc.out" % (fam, n), r.out)
+            v.violation("%s.tla config %s violates %s" % (fam, n, r.violated), p)
     for (cfgname, mut, refute), r in zip(muts, res[len(names):]):
         if refute and not r.violated:
             raise Broken("spec mutant %s on %s is not refuted: bounds are vacuous" % (mut, cfgname))
@@ -122,6 +198,7 @@ def run_models_and_mutants(v, names, muts, timeout=1500, pool=4):
 # ----------------------------------------------------------------------------------------------
 # real library: driver runs, oracles, per-queue word-level validation
 WL_SIG = "WLH-ANON-DEREF"
+WL_SHAPES = (6, 8, 9, 10, 11, 12)     # driver shapes whose bottom is a workloop
 WL_KEY = "workloop-bottom: lane drained under a workloop dereferences DISPATCH_WLH_ANON (_dispatch_lane_drain, DISPATCH_INVOKE_WORKLOOP_DRAIN)"
 
 
@@ -140,7 +217,7 @@ def split_trace(tr, d, tag):
         except Exception:
             continue
         e = j.get("e")
-        if e in ("St", "Tail", "Reset", "Quiesce") and "q" in j:
+        if e in ("St", "Tail", "Bk", "Reset", "Quiesce") and "q" in j:
             per.setdefault(j["q"], [])
             order.append((j["q"], line))
         elif e in API_EVENTS:
@@ -169,6 +246,24 @@ def trace_widths(tr):
     return w
 
 
+def trace_lanes(tr):
+    """queue index -> True for a lane, False for a workloop, from the Reset markers."""
+    w = {}
+    for line in open(tr):
+        if '"Reset"' in line:
+            j = json.loads(line)
+            w[j["q"]] = j.get("lane", True)
+    return w
+
+
+def validate_workloop_run(tr, nt, meta):
+    """WorkloopWordTrace on the accesses of the workloop (word + bucket lists); a rejection is re-checked once."""
+    res = validate_trace("WorkloopWordTrace.tla", "WorkloopWordTrace.cfg", tr, nthreads=nt, metaname=meta)
+    if not res.accepted:
+        res = validate_trace("WorkloopWordTrace.tla", "WorkloopWordTrace.cfg", tr, nthreads=nt, metaname=meta + "b")
+    return res
+
+
 def word_level_hint(tr, d, tag):
     """For an execution that hung or crashed: where does the recorded word-level behaviour leave the spec first?
     (informational: the verdict is already decided by the hang / crash)"""
@@ -176,13 +271,25 @@ def word_level_hint(tr, d, tag):
         if not os.path.exists(tr):
             return ""
         widths = trace_widths(tr)
+        lanes = trace_lanes(tr)
         nt = count_threads(tr) + 1
         best = None
         for q, p in sorted(split_trace(tr, d, tag).items()):
             if q not in widths:
                 continue
             lines = open(p).read().splitlines()
-            if any('"f":"_dispatch_workloop' in l for l in lines[:400]):
+            if not lanes.get(q, True):
+                res = validate_trace("WorkloopWordTrace.tla", "WorkloopWordTrace.cfg", p, nthreads=nt, metaname="C03_hint_%s_%d" % (tag, q))
+                if not res.accepted and res.maxl:
+                    k = res.maxl - 2
+                    if 0 <= k < len(lines):
+                        try:
+                            rec = json.loads(lines[k])
+                        except Exception:
+                            rec = {}
+                        best = best or ("workloop #%d: record %s %s (%s) by thread %s is not a step spec/WorkloopWordTrace.tla allows "
+                                        "(operator of its C function, first-pusher wakeup, pop under the lock, no work behind an unlock)"
+                                        % (q, rec.get("e"), rec.get("f"), rec.get("op"), rec.get("t")))
                 continue
             res = validate_trace("ChainWordTrace.tla", wordtrace_cfg(widths[q]), p, nthreads=nt, metaname="C03_hint_%s_%d" % (tag, q))
             if not res.accepted and res.maxl:
@@ -232,8 +339,19 @@ def validate_queue_run(tr, W, nt, meta):
     return res
 
 
-def validate_queue(v, tr, q, W, nt, desc, meta, lanes=None, res=None):
-    res = res or validate_queue_run(tr, W, nt, meta)
+def validate_queue(v, tr, q, W, nt, desc, meta, lanes=None, res=None, workloop=False):
+    res = res or (validate_workloop_run(tr, nt, meta) if workloop else validate_queue_run(tr, W, nt, meta))
+    if not res.accepted and workloop:
+        lines = open(res.trace_with_header).read().splitlines()
+        k = res.maxl or 1
+        rec = lines[k - 1] if k - 1 < len(lines) else "{}"
+        p = save_replay(PROP, "rejected_%s" % os.path.basename(tr), src=res.trace_with_header)
+        why = ("invariant %s (accounting of the workloop's word) violated" % res.violated) if res.violated else \
+            ("record %d of the workloop #%d is not a step spec/WorkloopWordTrace.tla allows (the operator of its C function on the "
+             "recorded old word; first pusher of a bucket owes a MAKE_DIRTY wakeup; buckets are popped under the drain lock; "
+             "no unlock leaves a non-empty bucket without a pending wakeup)" % (k, q))
+        v.violation("word-level trace of the workloop rejected (%s): %s: %s" % (desc, why, rec[:500]), p)
+        return False
     if not res.accepted:
         lines = open(res.trace_with_header).read().splitlines()
         k = res.maxl or 1
@@ -255,8 +373,8 @@ def validate_queue(v, tr, q, W, nt, desc, meta, lanes=None, res=None):
     v.transitions += res.generated
     m = re.search(r'<<"DRIFT", (\d+)>>', res.out)
     if m and int(m.group(1)) > 0:
-        v.drift.append("%s dq_state accesses of queue #%d from functions unknown to the spec were explained by other operators (%s)"
-                       % (m.group(1), q, desc))
+        v.drift.append("%s accesses of %s #%d from functions unknown to the spec were explained by other operators (%s)"
+                       % (m.group(1), "workloop" if workloop else "queue", q, desc))
     return True
 
 
@@ -286,7 +404,7 @@ def drive(v, seed, runs):
         rc, out, err = outs[i]
         if rc == 124:
             raise Broken("chain driver timed out (%s)" % desc)
-        if rc == 70 and shape == 6 and WL_SIG in err:
+        if rc == 70 and shape in WL_SHAPES and WL_SIG in err:
             if wl_defect:
                 continue      # every workloop-bottom run crashes the same way: reported once
             wl_defect = desc
@@ -313,12 +431,14 @@ def drive(v, seed, runs):
         nt = count_threads(tr) + 1
         parts = split_trace(tr, d, "chain_%d" % i)
         widths = trace_widths(tr)
+        lanes = trace_lanes(tr)
         if not parts or any(q not in widths for q in parts):
             raise Broken("chain driver trace has no hierarchy description (%s): %s" % (desc, err[-300:]))
         for q in sorted(parts):
-            if shape == 6 and q == 0:
-                continue    # the workloop's own word is driven by _dispatch_workloop_*: not a lane, not modelled
-            todo.append((parts[q], q, widths[q], nt, desc, "C03_lw%d_%d" % (i, q)))
+            # the workloop's own word and bucket lists: spec/WorkloopWordTrace.tla; lanes: spec/ChainWordTrace.tla
+            todo.append((parts[q], q, widths[q], nt, desc, "C03_lw%d_%d" % (i, q), not lanes.get(q, True)))
+            if not lanes.get(q, True):
+                v.notes["workloop_word_traces"] = v.notes.get("workloop_word_traces", 0) + 1
         whole.append((tr, nt, desc, i, s))
         if len(v.samples) < 3:
             body = [l for l in open(tr).read().splitlines() if '"St"' in l][:3] + \
@@ -327,13 +447,13 @@ def drive(v, seed, runs):
     def twice(spec, cfg, tr, nt, meta):
         r = validate_trace(spec, cfg, tr, nthreads=nt, metaname=meta)
         return r if r.accepted else validate_trace(spec, cfg, tr, nthreads=nt, metaname=meta + "b")
-    jobs = [(lambda t=t: validate_queue_run(t[0], t[2], t[3], t[5])) for t in todo]
+    jobs = [(lambda t=t: validate_workloop_run(t[0], t[3], t[5]) if t[6] else validate_queue_run(t[0], t[2], t[3], t[5])) for t in todo]
     # the whole recorded order: cross-level lock discipline (ChainLockTrace) and the thread-event protocol of the waiters
     jobs += [(lambda w=w: twice("ChainLockTrace.tla", "ChainLockTrace.cfg", w[0], w[1], "C03_lock%d" % w[3])) for w in whole]
     jobs += [(lambda w=w: twice("ThreadEventTrace.tla", "ThreadEventTrace.cfg", w[0], w[1], "C03_te%d" % w[3])) for w in whole]
     results = par(jobs, 6)
     for t, res in zip(todo, results):
-        validate_queue(v, t[0], t[1], t[2], t[3], t[4], t[5], res=res)
+        validate_queue(v, t[0], t[1], t[2], t[3], t[4], t[5], res=res, workloop=t[6])
     n = len(todo)
     for k, (tr, nt, desc, i, s) in enumerate(whole):
         for res, what, name in ((results[n + k], "cross-level lock discipline (ChainLockTrace: an item ran, or an inner queue was drained, "
@@ -352,14 +472,16 @@ def drive(v, seed, runs):
     if wl_defect:
         v.notes["workloop_bottom"] = "crashes on this tree (%s); shapes with a workloop bottom not explored further" % wl_defect
     else:
-        v.notes["workloop_bottom"] = "explored on the real library (oracles + word-level validation of the lanes above the workloop)"
+        v.notes["workloop_bottom"] = ("explored on the real library (oracles; word-level validation of the lanes above the workloop AND of the "
+                                      "workloop's own dq_state + bucket lists against WorkloopWordTrace; lock discipline incl. the workloop level)")
 
 
 def run(tier, seed):
     v = Verdict(PROP, tier, seed)
     v.assumptions = [
-        "TLC bounds: 2 clients x 2 workers, 2-3 items, hierarchies of 2-3 queues (depth <= 3, fan-in 2, concurrent inner width 2)",
-        "Chain.tla does not model dispatch_async_and_wait, workloops, suspension of hierarchy members, legacy retargeting of active queues: these are exercised on the real library only (API oracles + word-level validation per queue)",
+        "TLC bounds: 2 clients x 2 workers, 2-3 items, hierarchies of 2-3 queues (depth <= 3, fan-in 2, concurrent inner width 2); workloop: 1-2 reachable buckets",
+        "Chain.tla / Workloop.tla do not model dispatch_async_and_wait on lanes (only on the workloop itself), suspension of hierarchy members, legacy retargeting of active queues, QoS classes on queues that do not directly target the workloop: these are exercised on the real library only (API oracles + word-level validation per queue)",
+        "workloops are the non-kevent kind of this build (ROLE_BASE_ANON, drained as an item of a root queue)",
         "real executions sample schedules (seeded perturbation inside the library's atomicity windows)",
     ]
     quick = tier == "quick"
@@ -368,6 +490,10 @@ def run(tier, seed):
     t0 = time.time()
     names = ["C1q", "C2q", "C3q", "C4q", "C5", "C7r"] if quick else \
             ["C7", "C3", "C3b", "C5s", "C1", "C2", "C6x", "C1q", "C1b", "C2q", "C2s", "C3q", "C4q", "C4", "C5", "C6", "C7q", "C7r"]
+    # Workloop.tla: serial / concurrent leaf, fan-in over two buckets (asyncs; sync through either leaf), async and
+    # async_and_wait directly on the workloop, inactive workloop + two racing dispatch_activate, three levels
+    names += ["W5x", "W4x", "W8", "W6", "W2", "W3", "W1", "W1i", "W2s", "W2t"] if quick else \
+             ["W3b", "W2x", "W5x", "W5y", "W1x", "W7", "W4x", "W8", "W6", "W2", "W3", "W1", "W1i", "W2s", "W2t", "W4", "W4s"]
     # sync_recurse stops before the bottom level -> a sync caller overlaps an item of the bottom queue;
     # complete_recurse forgets the bottom level -> the bottom stays locked, work is stranded;
     # the waiter popped from an inner queue is woken instead of being re-pushed on the target -> overlap;
@@ -376,15 +502,31 @@ def run(tier, seed):
     # is absorbed by the test (re-enqueue on the target), the pair without the test breaks the exclusion.
     run_models_and_mutants(v, names, [("C4q", "recurse_skips_bottom", True), ("C1q", "complete_forgets_level", True),
                                       ("C4", "inner_waiter_woken", True),
-                                      ("C5", "stale_enqueue", False), ("C5", "stale_enqueue_nocheck", True)],
-                           pool=3, timeout=900 if quick else 3000)
+                                      ("C5", "stale_enqueue", False), ("C5", "stale_enqueue_nocheck", True),
+                                      # _dispatch_workloop_invoke2 unlocks after the bucket it drained became empty without
+                                      # scanning the lower buckets again -> an item of the other bucket is stranded;
+                                      # _dispatch_workloop_barrier_complete only looks at the highest bucket -> stranded;
+                                      # the first pusher of a bucket wakes the workloop without MAKE_DIRTY -> a drainer that
+                                      # already scanned unlocks over the new item; _dispatch_workloop_push_waiter takes the
+                                      # lock although a drainer holds it -> the waiter runs while an item is mid-run
+                                      ("W2", "invoke_one_bucket", True), ("W2s", "bc_one_bucket", True),
+                                      ("W1", "wakeup_no_dirty", True), ("W4s", "waiter_ignores_lock", True)],
+                           pool=4, timeout=900 if quick else 3000)
+    if not quick:
+        # observation outside C03 (reported, not judged): a second dispatch_activate(workloop) returns as soon as it sees INACTIVE
+        # clear, possibly before the first call cleared NEEDS_ACTIVATION; submitting then crashes in _dispatch_workloop_wakeup
+        r = tlc_retry("obs", "MCWorkloop.tla", wl_cfg("W1i", mut="obs_any_activate_returns", live=False, invs="NoCrash"), timeout=600,
+                      workers=4, heap="2g", metaname="C03_wl_obs")
+        v.notes["observation_not_judged"] = ("two racing dispatch_activate(workloop): the loser returns while NEEDS_ACTIVATION is still set; "
+                                             "a submission made after that early return hits DISPATCH_CLIENT_CRASH 'Waking up an inactive "
+                                             "workloop' (TLC: NoCrash %s with the guard 'any activate returned')" % ("violated" if r.violated else "holds"))
     v.notes["equivalent_spec_mutant"] = ("repush_without_barrier_flag (waiter re-pushed on a serial target without DC_FLAG_BARRIER) "
                                          "is NOT observable: a serial drain and _dispatch_lane_barrier_complete treat every object of a "
                                          "width-1 queue as a barrier whatever its flags")
     t1 = time.time()
     dqstate_conformance(v, PROP)
     t2 = time.time()
-    shapes = [0, 1, 2, 3, 4, 5, 7, 6]
+    shapes = [0, 1, 2, 3, 4, 5, 7, 6, 10, 8, 9, 11, 12]
     runs = []
     if quick:
         for k, shp in enumerate(shapes):
@@ -471,11 +613,16 @@ def replay(path, seed):
             j = json.loads(l)
             lanes[j["q"]] = j.get("lane", True)
     for q, p in sorted(split_trace(tmp, d, "replay").items()):
-        if q not in widths or not lanes.get(q, True):
+        if q not in widths:
             continue
-        r = validate_trace("ChainWordTrace.tla", wordtrace_cfg(widths[q]), p, nthreads=nt, metaname="C03_replay_q%d" % q)
-        print("ChainWordTrace queue #%d (W=%d): %s (matched %s of %s records)%s" % (
-            q, widths[q], "accepted" if r.accepted else "REJECTED", r.maxl, r.tracelen, (" invariant " + r.violated) if r.violated else ""))
+        if not lanes.get(q, True):
+            r = validate_trace("WorkloopWordTrace.tla", "WorkloopWordTrace.cfg", p, nthreads=nt, metaname="C03_replay_q%d" % q)
+            print("WorkloopWordTrace workloop #%d: %s (matched %s of %s records)%s" % (
+                q, "accepted" if r.accepted else "REJECTED", r.maxl, r.tracelen, (" invariant " + r.violated) if r.violated else ""))
+        else:
+            r = validate_trace("ChainWordTrace.tla", wordtrace_cfg(widths[q]), p, nthreads=nt, metaname="C03_replay_q%d" % q)
+            print("ChainWordTrace queue #%d (W=%d): %s (matched %s of %s records)%s" % (
+                q, widths[q], "accepted" if r.accepted else "REJECTED", r.maxl, r.tracelen, (" invariant " + r.violated) if r.violated else ""))
         if not r.accepted:
             hl = open(r.trace_with_header).read().splitlines()
             k = r.maxl or 1
